@@ -321,6 +321,9 @@ func driverMain(args []string) int {
 		res   *workerResult
 		crash *workerViolation
 		err   string
+		// the run indices executed by the crashed worker process before the
+		// failing run: batchFirst, batchFirst+batchStride, ...
+		batchFirst, batchStride uint64
 	}
 	runPhase := func(bin string, raceBin bool, runs int64) []wout {
 		outs := make([]wout, nw)
@@ -368,6 +371,7 @@ func driverMain(args []string) int {
 						path := fmt.Sprintf("%s/%s-%d-%d.json", outDir, prop, seed, run)
 						writeJSON(path, rf)
 						outs[w].crash = &workerViolation{Run: uint64(run), File: path, V: v}
+						outs[w].batchFirst, outs[w].batchStride = uint64(first+int64(w)), uint64(nw)
 						break
 					}
 					if len(res.Violations) > 0 || res.CapHit || limit >= runs {
@@ -428,10 +432,39 @@ func driverMain(args []string) int {
 			}
 			r := runChild(90*time.Second, cbin, "replay-child", o.crash.File, filepath.Join(tmpDir, "confirm.progress"))
 			k, _ := crashKind(r)
+			batchDependent := false
+			if k == "" && r.exit != 1 && o.batchStride > 0 && o.batchFirst < o.crash.Run {
+				// the run alone is clean: the failure may depend on process-global
+				// state left by the earlier runs of that worker process
+				if b, err := os.ReadFile(o.crash.File); err == nil {
+					var rf ReplayFile
+					if json.Unmarshal(b, &rf) == nil {
+						rf.Batch = &struct {
+							First  uint64 `json:"first"`
+							Stride uint64 `json:"stride"`
+						}{o.batchFirst, o.batchStride}
+						rf.Note = "process-level failure that depends on process-global state left behind by earlier runs of the same worker process: replay re-executes that process's runs up to the failing one; not minimised"
+						writeJSON(o.crash.File, &rf)
+						// process-global state such as sync.Pool is not fully owned by
+						// the simulator (random drops under -race): up to 3 attempts
+						for try := 0; try < 3 && !batchDependent; try++ {
+							r = runChild(180*time.Second, cbin, "replay-child", o.crash.File, filepath.Join(tmpDir, "confirm.progress"))
+							k, _ = crashKind(r)
+							batchDependent = k != "" || r.exit == 1
+						}
+					}
+				}
+			}
 			if k == "" && r.exit != 1 {
-				fmt.Fprintf(os.Stderr, "HARNESS TROUBLE: worker %d died in run %d (%s) but the run alone is clean (exit %d)\n%s\n",
+				fmt.Fprintf(os.Stderr, "HARNESS TROUBLE: worker %d died in run %d (%s) but neither the run alone nor its worker's batch reproduces it (exit %d)\n%s\n",
 					w, o.crash.Run, o.crash.V.Kind, r.exit, o.crash.V.Detail)
 				trouble = true
+				continue
+			}
+			if batchDependent {
+				shrunkClass[o.crash.V.Class()] = true
+				o.crash.Shrink = "depends on earlier runs of the same worker process (process-global state); replay re-executes the batch; not minimised"
+				viols = append(viols, *o.crash)
 				continue
 			}
 			if cl := o.crash.V.Class(); !shrunkClass[cl] {
